@@ -74,6 +74,24 @@ def _take(it, c):
     except StopIteration: break
   return out
 
+def _conc(x, hi):
+  """Make a small symbolic int concrete through solver branches (one path per value): the chained-pipeline obligations are
+  too slow when the cut positions stay symbolic inside the library (every comparison on start_index forks)."""
+  for v in range(hi + 1):
+    if x == v: return v
+  return hi
+
+def _drain(it):
+  """Remaining elements and the value the iterator returns at its end (the AggregateResult of a pipeline)."""
+  out = []
+  while True:
+    try: out.append(next(it))
+    except StopIteration as e: return out, e.value
+
+def _ret_key(v):
+  # no repr()/sorting of keys: formatting symbolic values makes CrossHair enumerate them
+  return None if v is None else (v.agg_result, [list(s) for s in (v.agg_state or {}).values()])
+
 def _resume_chain(it, cuts, fresh):
   """Deliver cuts[0] elements, checkpoint, restore, deliver cuts[1], checkpoint, restore ... then drain.
   fresh(state) builds a brand-new iterator from a state (None: use the running iterator's from_state)."""
@@ -175,20 +193,42 @@ def gen(nmax, kmax, cmax, nested, three_cuts, pipes, heavy):
       ok = ok and list(r1) == rest and r1.agg_result == want_agg
       r2 = mk().make().iterate().from_state(st)   # restoring again from the same captured state
       return ok and list(r2) == rest and r2.agg_result == want_agg"""))
-    A(F(f'wit_pipe_{tag}', 'i: int, c1: int', f'0 <= i < {pk} and 0 <= c1 <= {pc}', PIPE + """
+    A(F(f'ob_pipe_returned_{tag}', 'i: int, c1: int', f'0 <= i < {pk} and 0 <= c1 <= {pc}', PIPE + """
+      _, want_ret = _drain(mk().make(shard=shard).iterate())
+      it = mk().make(shard=shard).iterate()
+      head = _take(it, c1)
+      it = it.from_state(it.state)
+      rest, ret = _drain(it)
+      return want_ret is not None and head + rest == want and _ret_key(ret) == _ret_key(want_ret)"""))
+    if pn >= 2 * pk: A(F(f'wit_pipe_{tag}', 'i: int, c1: int', f'0 <= i < {pk} and 0 <= c1 <= {pc}', PIPE + """
       it = mk().make(shard=shard).iterate()
       head = _take(it, c1)
       return not (len(head) >= 1 and len(list(it)) >= 1 and want_agg is not None)"""))
-  if heavy: A(F('ob_chained_2cut', 'n: int, c1: int, c2: int', f'0 <= n <= {2 if nmax < 8 else 4} and 0 <= c1 <= 2 and 0 <= c2 <= {1 if nmax < 8 else 2}', """
+  # chains of two named aggregating stages (the source length is enumerated: one contract function per n keeps the path count per function small)
+  CH = """
+      n = {n}
       def mk():
         ds = io.SequenceDataSource(Seq(n))
         a = transform.TreeTransform.new(name='a').data_source(ds).apply(lambda x: x + 1).agg(SumAgg(), output_keys='sa')
         b = transform.TreeTransform.new(name='b').apply(lambda x: x * 2).agg(SumAgg(), output_keys='sb')
         return a.chain(b)
+"""
+  for n in range(0, (4 if heavy else 3)):
+    cm = min(n, 2)
+    A(F(f'ob_chained_2cut_n{n}', 'c1: int, c2: int', f'0 <= c1 <= {cm} and 0 <= c2 <= {cm}', CH.format(n=n) + """
+      c1 = _conc(c1, 2); c2 = _conc(c2, 2)
       ref_it = mk().make().iterate()
       want = list(ref_it); want_agg = ref_it.agg_result
       got, it = _resume_chain(mk().make().iterate(), [c1, c2], None)
       return want == [2 * (x + 1) for x in range(n)] and got == want and it.agg_result == want_agg"""))
+    A(F(f'ob_chained_returned_n{n}', 'c1: int', f'0 <= c1 <= {min(n, 2)}', CH.format(n=n) + """
+      c1 = _conc(c1, 2)
+      want, want_ret = _drain(mk().make().iterate())
+      it = mk().make().iterate()
+      head = _take(it, c1)
+      it = it.from_state(it.state)
+      rest, ret = _drain(it)
+      return want_ret is not None and head + rest == want and _ret_key(ret) == _ret_key(want_ret) and it.agg_result == want_ret.agg_result"""))
   return '\n'.join(s)
 
 
